@@ -230,6 +230,10 @@ func (k *checker) persist5() {
 				if _, isCall := r.(ssa.CallInstruction); isCall {
 					obj = al
 				}
+				// captured by a function literal that a once-helper runs
+				if _, isMC := r.(*ssa.MakeClosure); isMC {
+					obj = al
+				}
 			}
 		}
 	})
@@ -250,6 +254,29 @@ func (k *checker) persist5() {
 			}
 		}
 	})
+	if !encCalled {
+		for _, w := range k.wrappers(schemaFn) {
+			if !w.once {
+				continue
+			}
+			ssau.AllInstrs(w.body, func(in ssa.Instruction) {
+				c, ok := in.(*ssa.Call)
+				if !ok {
+					return
+				}
+				if sc := c.Common().StaticCallee(); sc == nil || sc != encFn {
+					return
+				}
+				for _, a := range c.Common().Args {
+					for i, fv := range w.body.FreeVars {
+						if a == ssa.Value(fv) && i < len(w.closure.Bindings) && w.closure.Bindings[i] == ssa.Value(obj) {
+							encCalled = true
+						}
+					}
+				}
+			})
+		}
+	}
 	encFi := newFnInfo(encFn)
 	var appParam *ssa.Parameter
 	for _, p := range encFn.Params[1:] {
